@@ -2,7 +2,9 @@
 LEVEL_NOTE = ("Trusted base: TLC 1.8 evaluating the TLA+ modules under /verif/spec (written from Specification.md, "
               "the command help texts and the property statements), the Go driver kdrive that only records what the "
               "real code did (built from /repo's working tree with -tags verif), Python plumbing. Verdicts are about "
-              "the enumerated / observed cases only.")
+              "the enumerated / observed cases only. Parameters of the environment that no result may depend on (process "
+              "time zone, number of CPUs, whether the text arrives as a file, on standard input or through a bookmark) "
+              "rotate over the cases and are part of every replay file.")
 
 META = {
  "C16": {
